@@ -192,6 +192,10 @@ impl Engine for VmEngine {
             // a local declared in a While body that never runs (repaired: the body is a scope)
             run("while(int(#0),composite($5f,[setvar($78,int(#1))])),setvar($79,int(#2)),setglobal($6f,readvar($79))", ""),
             run("setvar($63,int(#0)),while(less(readvar($63),int(#2)),composite($5f,[setvar($78,readvar($63)),setvar($63,add(readvar($63),int(#1)))])),setvar($79,int(#2)),setglobal($6f,readvar($79))", ""),
+            // key functions that modify the table the library function iterates over (repaired: the
+            // natives iterate over a copy of the rows; before, they read freed storage)
+            run("setvar($74,array([int(#3),int(#1),int(#2)])),setglobal($67,call($7374642e6d696e5f62795f6b6579,[closure([$6b6579,$76616c],[append(readvar($76616c),readvar($74)),append(readvar($76616c),readvar($74)),append(readvar($76616c),readvar($74)),append(readvar($76616c),readvar($74)),append(readvar($76616c),readvar($74)),append(readvar($76616c),readvar($74)),return(readvar($76616c))]),readvar($74)])),setglobal($68,len(readvar($74)))", ""),
+            run("setvar($74,array([int(#3),int(#1),int(#2)])),setglobal($67,call($7374642e736f727465645f62795f6b6579,[closure([$6b6579,$76616c],[append(readvar($76616c),readvar($74)),append(readvar($76616c),readvar($74)),append(readvar($76616c),readvar($74)),append(readvar($76616c),readvar($74)),append(readvar($76616c),readvar($74)),append(readvar($76616c),readvar($74)),return(readvar($76616c))]),readvar($74)])),setglobal($68,len(readvar($74)))", ""),
             // known finding K2: == on a table that contains itself recurses without bound
             run("setvar($74,table),setprop(readvar($74),readvar($74),int(#0)),setglobal($67,eq(readvar($74),readvar($74)))", ""),
             // nested budget (F9): a sort whose key function loops; the whole run has one budget
